@@ -13,6 +13,7 @@ import (
 	"github.com/ctessum/geom/index/rtree"
 	"github.com/ctessum/geom/proj"
 	"pgregory.net/rapid"
+	"verif/vkit"
 )
 
 // Op is one step of a history. Indices are interpreted modulo the number of live objects, so every history is
@@ -58,6 +59,13 @@ func GenHistory(t *rapid.T, queries string) History {
 	n := rapid.IntRange(1, 120).Draw(t, "nops")
 	if rapid.IntRange(0, 5).Draw(t, "long") == 0 {
 		n = rapid.IntRange(120, 400).Draw(t, "nops2")
+	}
+	if vkit.Tier() == "thorough" && rapid.IntRange(0, 19).Draw(t, "verylong") == 0 {
+		// thorough tier: histories long enough for the fan-out 25/50 that package route uses to reach depth 3
+		n = rapid.IntRange(800, 2500).Draw(t, "nops3")
+		h.Max = rapid.SampledFrom([]int{25, 50, 8}).Draw(t, "bigmax")
+		h.Min = rapid.IntRange(2, h.Max/2).Draw(t, "bigmin")
+		grid = 60
 	}
 	// phases make growth followed by shrinkage likely: bias changes between insert-heavy and delete-heavy
 	phase := 0
